@@ -50,7 +50,9 @@ def _chunk(items):
     emmet = common.import_emmet()
     from emmet.abbreviation import parse
     bad = []
-    for s, exp, fields, limit, clause, printed in items:
+    for item in items:
+        s, exp, fields, limit, clause, printed = item[:6]
+        snippets = item[6] if len(item) > 6 else None
         case = {'abbr': s, 'maxRepeat': limit, 'compared': list(fields)}
         try:
             with common.Alarm(10):
@@ -67,6 +69,8 @@ def _chunk(items):
             continue          # tree-only instance
         # the printed markup (AbbrPrint.tla) against expand(), both read by the tag lexer and compared on the same components
         cfg = {'options': {'output.format': False, 'output.selfClosingStyle': 'xhtml'}}
+        if snippets:
+            cfg['snippets'] = snippets          # names of the instance that are snippet keys are defined as themselves: plain elements
         if limit is not None:
             cfg['maxRepeat'] = limit
         try:
@@ -91,7 +95,7 @@ def _chunk(items):
     return bad
 
 
-def differential(out, name, consts, fields, clause, limit=None, simulate=None, depth=None, cap=None, nontrivial=None, tree_only=False):
+def differential(out, name, consts, fields, clause, limit=None, simulate=None, depth=None, cap=None, nontrivial=None, tree_only=False, snippets=None):
     """one instance: TLC run of AbbrGrammar with `consts`, every vector replayed through abbreviation.parse()"""
     c = dict(consts, RepeatLimit=UNLIMITED if limit is None else limit, SelfClosingStyle='xhtml', ScChild=False, TreeOnly=tree_only)
     kw = dict(constants=c, timeout=3000, heap='8g')
@@ -113,7 +117,7 @@ def differential(out, name, consts, fields, clause, limit=None, simulate=None, d
     notok = [s for s, v in vecs.items() if v['out']['kind'] != 'ok']
     if notok:          # Accepted is an invariant of the model; a vector that is not "ok" means the harness lost track
         raise common.MachineryError('AbbrGrammar printed a vector that the model does not accept: %r' % notok[:3])
-    items = [(s, v['out'], fields, limit, clause, v['printed']) for s, v in vecs.items()]
+    items = [(s, v['out'], fields, limit, clause, v['printed'], snippets) for s, v in vecs.items()]
     bad = common.pool_map(_chunk, items, chunk=1500)
     out.add_tlc(name, r, vectors=len(vecs), compared=list(fields), maxRepeat=limit)
     out.traces += len(items)
